@@ -1,31 +1,44 @@
 #!/usr/bin/env python3
-"""Regenerates MANIFEST.json. Claimed properties are those listed in CLAIMED below."""
-import json, sys
+"""Regenerates MANIFEST.json from the checker's property table (kzcheck -export-props).
+Claimed = every property in the table whose id is listed in CLAIM below."""
+import json, subprocess
 
-NOTE = "Trusts go/types, go/ssa and the VTA call graph of x/tools v0.50.0 and the rule code in /verif/checker; assumes no unsafe/reflect/cgo/linkname in the module (checked on every run); integer arithmetic, buffer sizes and indices are not modelled; implicit flows are not tracked."
-CLAIMED = {
- "C02": {"technique": "SSA dominance / must-pass-through analysis of decode and encode (R-CKSUM), typestate of error returns (R-ERRSTATE)",
-         "text": "Decides structurally, for every path at once: the block hash is recomputed after the inverse transform on the buffer it wrote, compared at full width with the header field, a mismatch always sets the task error, no clean exit bypasses the comparison while a hasher is set; on encode the hash of the original block (computed before Forward) is what is written, with the hasher's width; error returns of Reader.processBlock publish 0 bytes so no later Read can deliver a failed batch. Does not decide hash strength or byte equality.",
-         "note": NOTE},
- "C06": {"technique": "CFG loop / callee analysis of the bitstream refill (R-REFILL)",
-         "text": "Decides the source-side clause only: the input bitstream refills its buffer completely (io.ReadFull/ReadAtLeast or a loop around the underlying Read that uses both count and error), which is the invariant every bulk read path relies on to decode identically from short-read sources. Does not decide Write/Read buffer-length independence (index arithmetic).",
-         "note": NOTE + " The rule accepts only the refill-completely design."},
- "C07": {"technique": "SSA edge-dominance and all-paths analyses of the task functions, their deferred handlers and processBlock (R-TOKEN, R-CANCEL, R-POISON)",
-         "text": "Decides the protocol's code obligations for every schedule at once because they are dominance facts: every shared-stream call is dominated by the acquire edge (counter == id-1) and none follows the release; ids are consecutive; spin loops have a cancel exit and yield; the deferred handler turns panics into errors, cancels on error, never advances the counter without holding the token, always calls Done; Add precedes go, Wait joins every path and dominates result reads; a cancelled counter makes every later Writer call fail. Does not decide fairness/timing.",
-         "note": NOTE},
+TECH = {
+ "C01": "value-flow (taint) non-interference of the size hint; store/assert type agreement over context keys; switch-table extraction",
+ "C02": "SSA dominance / must-pass-through analysis of decode and encode; typestate of error returns",
+ "C03": "call-graph reachability with recover-protected frames; entry-guard check of every goroutine; backward size tracing of allocations",
+ "C04": "call-graph scan for nondeterministic APIs; field-based value flow of the job count; edge-dominance of shared-stream calls; ownership classification of task fields",
+ "C05": "edge-dominance of shared reads; ownership classification; buffer write-back/publish analysis; typestate of error returns",
+ "C06": "CFG loop / callee analysis of the bitstream refill",
+ "C07": "SSA edge-dominance and all-paths analyses of the task functions, their deferred handlers and processBlock",
+ "C08": "protected-frame reachability of declared panics; error-value escape analysis; dominance ordering of close/flush/closed-flag",
+ "C09": "classification of clean exits by edge cutting (reachability); error-value escape; dominance ordering in Close",
+ "C10": "frozen wire-constant table of format 6 compared with type-checked constant values, call-site constants and literal-table digests",
+ "C11": "dominance ordering of the range tests in decode; normalised comparison operators; loop-exit condition of the batch loop",
+ "C12": "switch-table extraction and pairing of encoder/decoder factory cases; frozen wire constants of the entropy package",
+ "C13": "alias (may-refer-to) flow from every Forward src parameter to write sinks; phi analysis of the sequence's error edge",
+ "C14": "entry-test and closed-state store checks on the bitstream implementations",
+ "C15": "switch-table extraction (bijection, upper-casing, constructors); taint from context codec names to case-sensitive comparisons",
+ "C17": "entry-block typestate checks on Write/Read/Close; dominance ordering in Close",
+ "C18": "alias flow from every package-level variable to write sinks outside init; ownership classification; hasher purity; worker write-set analysis",
+ "C19": "dominance analysis of open flags vs overwrite edge; who-may-call allow-list of file-system mutations; remove-after-close dominance",
 }
 NOT_APPLICABLE = {
- "C16": "arithmetic post-condition of a rounding loop over all histograms; no clause is visible in code shape and no sound static argument (abstract interpretation over 256 symbolic counters) is in reach of the tools present; see DESIGN.md C16",
+ "C16": "arithmetic post-condition (table sums to the scale, every present symbol >= 1) of a rounding/redistribution loop over all histograms; no clause is visible in code shape and a sound static argument (abstract interpretation over 256 symbolic counters) is out of reach of the tools present; see DESIGN.md section 3, C16",
 }
-PENDING = "check not built yet in this session (static rule planned in DESIGN.md); not claimed until it runs clean"
+NOTE = ("Trusts go/types, go/ssa and the VTA call graph of x/tools v0.50.0 and the rule code in /verif/checker; assumes no "
+        "unsafe/reflect/cgo/linkname in the module (checked on every run); integer arithmetic, buffer sizes and indices are "
+        "not modelled; implicit flows are not tracked; sink rules are armed against a positive-control fixture on every run.")
+PENDING = "check not built yet (static rule planned in DESIGN.md); not claimed until it runs clean on the unchanged tree"
+CLAIM = ["C01","C02","C03","C04","C05","C06","C07","C08","C09","C11","C13","C14","C15","C17","C18","C19"]
 
+table = json.loads(subprocess.check_output(['/verif/check.sh', 'raw', '-export-props']))
 props = [json.loads(l) for l in open('/verif/properties.jsonl')]
-checks = []
-na = []
+checks, na = [], []
 for p in props:
     pid = p['id']
-    if pid in CLAIMED:
-        c = CLAIMED[pid]
+    if pid in CLAIM and pid in table:
+        t = table[pid]
         checks.append({
             "property_id": pid,
             "quick_cmd": f"./check.sh {pid} quick",
@@ -33,9 +46,11 @@ for p in props:
             "evidence_file": f"/verif/evidence/{pid}.json",
             "replay_cmd_template": "./check.sh raw -replay {path}",
             "engine": "kzcheck",
-            "level_claimed": {"category": "other", "text": c["text"], "design_ref": c.get("ref", f"DESIGN.md section 3, {pid}")},
-            "level_note": c["note"],
-            "technique": c["technique"],
+            "level_claimed": {"category": "other",
+                              "text": f"Static rules {', '.join(t['rules'])} decide, on every path and for every input/schedule at once, the structural clauses of the property: {t['decided']} NOT decided (runtime-value clauses, stated plainly): {t['not_decided']}",
+                              "design_ref": f"DESIGN.md section 3, {pid}"},
+            "level_note": NOTE,
+            "technique": "static analysis: " + TECH[pid],
         })
     else:
         na.append({"property_id": pid, "reason": NOT_APPLICABLE.get(pid, PENDING)})
@@ -45,11 +60,11 @@ m = {
     "hooks": {"guard": "verif", "enable": "none needed: the checker analyses the source of /repo/v2 as data (go/packages + go/ssa); no hook or instrumentation commits exist",
               "baseline_off_cmd": "cd /repo/v2 && go test -vet=off -count=1 -timeout 25m ./...",
               "source_commits": [], "add_only": True},
-    "engines": [{"name": "kzcheck", "path": "/verif/checker", "serves_properties": sorted(CLAIMED),
+    "engines": [{"name": "kzcheck", "path": "/verif/checker", "serves_properties": [c["property_id"] for c in checks],
                  "kind_free_text": "repository-specific static analyser: go/packages + go/types + go/ssa + VTA call graph (x/tools v0.50.0, go1.26.8); dominance/typestate/taint/table-agreement rules; no kanzi code is executed"}],
     "checks": checks,
     "not_applicable": na,
-    "notes": "All checks are static analyses of the current working tree of /repo/v2 at level 'other': each decides the structural clauses of its property named in level_claimed.text and states what it does not decide. See DESIGN.md.",
+    "notes": "All checks are static analyses of the current working tree of /repo/v2 at level 'other': each decides the structural clauses of its property named in level_claimed.text and states what it does not decide. Nine genuine defects found by the rules were repaired by fix: commits in /repo (see known_findings.txt, DESIGN.md section 5).",
 }
 json.dump(m, open('/verif/MANIFEST.json', 'w'), indent=1)
 print("claimed", len(checks), "not_applicable", len(na))
